@@ -4,9 +4,9 @@ SPEC = {
     "gen": [],
     "streams": [
         {"name": "nohalt", "cmd": "nohalt",
-         "args": {"quick": ["-cases", "22", "-precond", "4", "-blocks", "24"],
-                  "thorough": ["-cases", "900", "-precond", "100", "-blocks", "30"]},
-         "search_args": ["-cases", "150", "-precond", "0", "-blocks", "30"],
+         "args": {"quick": ["-cases", "22", "-precond", "4", "-blocks", "24", "-roothash", "12"],
+                  "thorough": ["-cases", "900", "-precond", "100", "-blocks", "30", "-roothash", "400"]},
+         "search_args": ["-cases", "150", "-precond", "0", "-blocks", "30", "-roothash", "80"],
          "timeout": 14400},
     ],
     "trusted_base": [
@@ -20,6 +20,7 @@ SPEC = {
         "ledger share invariant of C05: for every escrow pool, the shares of the delegations to it do not exceed the pool's total shares; votes of a proposal are keyed by voter (premises ledger_inv / NoDup of the tally theorems, `shares <= ts` of debonding_completion_total)",
         "parameter sanity checks hold (go/staking/api/sanity_check.go:33-50,68-70, re-run on every parameter change, apps/staking/messages.go:41): fee weights not all zero (needed by disburseFeesP only), commission rates <= 100 %; the denominators are the non-zero package constants",
         "CometBFT delivers a commit info with one entry per validator of the previous height (empty only at the initial height, where LastBlockFees = 0 by apps/staking/genesis.go:41-62 and no proposer reward is paid because GetCurrentEpoch = EpochInvalid, abci/state.go:283-286)",
+        "roothash sub-stream: a non-TEE compute runtime whose compute nodes all belong to validator 0's entity; commitments are properly signed ExecutorCommit transactions with arbitrary result roots (no runtime executes anything); suspension is caused by node-registration expiry",
         "documented precondition of the property: enough stake-eligible validators remain to elect a validator set (histories violating it run in a separate sub-stream and are only checked to fail with the election error)",
         "genesis sanity: total supply <= 2^64 unless stake is bypassed (scheduler genesis.go:160-171), so amounts 2^128 / 2^255 are generated only with DebugBypassStake",
         "debug-only behaviour excluded: DebugMockBackend epoch JUMPS with the supplementarysanity app registered, and beacon.SetEpoch to epochs near 2^63",
@@ -28,6 +29,6 @@ SPEC = {
 
 MANIFEST = {
     "technique": "Coq proof (totality of the executable ports of the fatal arithmetic: fee splits, rewards, slashing, debonding completion, governance tally; exact characterisation of the remaining fatal conditions; refutation witnesses where the code's own preconditions do not exclude a failure) with differential correspondence check and an extreme-input panic search on the real ABCI multiplexer",
-    "level_text": "Theorems in coq/Props/C10.v hold for all amounts (unbounded naturals), all vote patterns including all validators absent, all commission rates up to 100 %, any vote list with one vote per account and any delegation set satisfying the ledger share invariant: disburseFeesP, disburseFeesVQ, AddRewards / AddRewardSingleAttenuated, SlashEscrow, debonding completion and the governance tally of the ported model never return an error under the stated preconditions; the tally is fatal exactly when every validator entity has zero active escrow and its voted stake never exceeds the total voting stake. disburseFeesVQ is total for ALL weights and conserves the pending fees (repair of /repo commit c9cfe37); the ORIGINAL function is kept as fee_vq_original and proved to fail when the vote and next-propose weights are both zero while fees are persisted (the halt was reproduced on the real multiplexer through a passed change-parameters proposal; that history stays in the quick tier as a regression case). TransferFromCommon(escrow=true) is REFUTED with a witness: it fails for an account slashed to zero with a 100 % commission rate (not reproduced on the multiplexer). The model is tied to the code by recording, at every block of seeded extreme histories executed by the real multiplexer, the real inputs/outputs of these functions and evaluating the model on them inside Coq; an independent oracle reports every panic, empty or rejected honest proposal, and any effect of malformed transactions on other transactions or on the state (twin chain).",
-    "level_note": "Trusted: Coq kernel; the harness and muxdrv (which play CometBFT); the hand port of quantity arithmetic. Fatal paths inside apps that are not modelled (registry, roothash message processing and round finalization incl. distributeSlashedFunds, key manager, vault, beacon VRF, scheduler election beyond the documented precondition, epoch-end AddRewards sequences) are covered by the search stream only; votes with values outside yes/no/abstain (accepted by castVote) are outside the tally model.",
+    "level_text": "Theorems in coq/Props/C10.v hold for all amounts (unbounded naturals), all vote patterns including all validators absent, all commission rates up to 100 %, any vote list with one vote per account and any delegation set satisfying the ledger share invariant: disburseFeesP, disburseFeesVQ, AddRewards / AddRewardSingleAttenuated, SlashEscrow, debonding completion and the governance tally of the ported model never return an error under the stated preconditions; the tally is fatal exactly when every validator entity has zero active escrow and its voted stake never exceeds the total voting stake. disburseFeesVQ is total for ALL weights and conserves the pending fees (repair of /repo commit c9cfe37); the ORIGINAL function is kept as fee_vq_original and proved to fail when the vote and next-propose weights are both zero while fees are persisted (the halt was reproduced on the real multiplexer through a passed change-parameters proposal; that history stays in the quick tier as a regression case). TransferFromCommon(escrow=true) is total for ANY destination pool and conserves the transferred amount (repair of /repo commit c3a21ab); the ORIGINAL function is kept as transfer_from_common_escrow_original and proved to fail for an account slashed to zero with shares outstanding and a 100 % commission rate (the halt was reproduced on the real multiplexer by the roothash sub-stream; that history, script rt-slash-reward, stays in the quick tier as a regression case). The model is tied to the code by recording, at every block of seeded extreme histories executed by the real multiplexer, the real inputs/outputs of these functions and evaluating the model on them inside Coq; an independent oracle reports every panic, empty or rejected honest proposal, and any effect of malformed transactions on other transactions or on the state (twin chain).",
+    "level_note": "Trusted: Coq kernel; the harness and muxdrv (which play CometBFT); the hand port of quantity arithmetic. Fatal paths inside apps that are not modelled are covered by the search streams only: roothash rounds (commit / timeout / discrepancy / backup resolution / equivocation evidence / suspension with an armed round timeout / resumption, incl. distributeSlashedFunds) by the roothash sub-stream; registry, roothash runtime messages, key manager, vault, beacon VRF, scheduler election beyond the documented precondition, epoch-end AddRewards sequences) are covered by the search stream only; votes with values outside yes/no/abstain (accepted by castVote) are outside the tally model.",
 }
